@@ -25,7 +25,8 @@ structure St where
   mon : Nat := 0
   modelSpec : Nat := 0     -- model ≠ spec (should be impossible: it is a theorem)
   bad : Nat := 0           -- unparsable lines
-  printed : Nat := 0
+  printed : Nat := 0          -- CORR / MODELSPEC / BAD lines printed
+  printedSpec : Nat := 0      -- SPEC / MON lines printed (own budget: witnesses must never be crowded out)
 
 def parseCell (s : String) : Option Int :=
   if s == "-" then some cNone
@@ -141,6 +142,20 @@ def step (st : St) (line : String) : St × List String :=
           let (p, f) := monitorReq { poll' with now := st.poll.now } rest impl
           ({ p with now := poll'.now }, f)
         | _ => (poll', [])
+      -- C04: every message a scanner reports must be one the checked constructors can build (fields in range,
+      -- 7-bit values at most 127, 14-bit implies data entry)
+      let rangeFails : List String :=
+        match req with
+        | ["cc", "feed", _, _, _, _, _] =>
+          (match impl with
+           | [c, n, v] => if c == cNone || (0 ≤ c && c < 16 && 0 ≤ n && n < 32 && 0 ≤ v && v < 16384) then [] else [s!"c04RangeMonitor out-of-range 14-bit CC message {showObs impl}"]
+           | _ => [])
+        | "pn" :: "feed" :: _ | "pp" :: "feed" :: _ | "pp" :: "poll" :: _ =>
+          let msgs := [decodeMsg (impl.take 6), decodeMsg ((impl.drop 6).take 6)].filterMap id
+          if impl.any (fun c => c ≤ -100) then [] else
+          msgs.filterMap (fun m => if decide m.Valid then none else some s!"c04RangeMonitor unconstructible (N)RPN message reported {showObs (pnObs m)}")
+        | _ => []
+      let monFails := monFails ++ rangeFails
       let st := { st with scan := scan', poll := poll'', mon := st.mon + monFails.length }
       let out : List String := monFails.map (fun f => s!"MON {st.lines} {reqS} :: {f}")
       let (st, out) :=
@@ -161,7 +176,13 @@ def step (st : St) (line : String) : St × List String :=
               out ++ [s!"MODELSPEC {st.lines} {reqS} model={showObs model} spec={showObs spec}"])
           else (st, out)
         | none => (st, out)
-      if st.printed ≥ maxPrint then (st, []) else ({ st with printed := st.printed + out.length }, out)
+      -- separate printing budgets: lines that carry a witness (SPEC, MON) / the others
+      let isW (l : String) : Bool := l.startsWith "SPEC" || l.startsWith "MON"
+      let w := out.filter isW
+      let o := out.filter (fun l => !isW l)
+      let w := if st.printedSpec ≥ maxPrint then [] else w
+      let o := if st.printed ≥ maxPrint then [] else o
+      ({ st with printed := st.printed + o.length, printedSpec := st.printedSpec + w.length }, w ++ o)
     | _, _ => ({ st with bad := st.bad + 1 }, [s!"BAD {st.lines} {line}"])
   | _ => ({ st with bad := st.bad + 1 }, [s!"BAD {st.lines} {line}"])
 
